@@ -4,7 +4,7 @@ import json
 import os
 
 MODULES = ['m_block_tokenizer', 'm_block_token', 'm_span_tokenizer', 'm_core_tokens', 'm_state', 'm_toc', 'm_markdown']
-LEMMA_MODULES = ['l_patterns', 'l_html', 'l_latex', 'l_classes']          # modules exporting LEMMAS = {key: (fn, [props])}
+LEMMA_MODULES = ['l_patterns', 'l_html', 'l_latex', 'l_classes', 'l_redos']          # modules exporting LEMMAS = {key: (fn, [props])}
 
 _model = None
 
